@@ -25,7 +25,7 @@ RULE = ('cases = (pattern text, flag set, entry points); exhaustive strings over
 ASSUMPTIONS = [
     'documented exception types: PatternLimitException (only when BRACE/SPLIT can expand), SyntaxError/LookupError (only with '
     'RAWCHARS), TypeError (mixed str/bytes), ValueError (pathlib absolute pattern or foreign-platform flags)',
-    'NUL is not put into patterns that reach the file system (os-level ValueError is not wcmatch behaviour)',
+    'NUL (literal, or decoded by RAWCHARS) is not a valid file-name character: an OS-level "embedded null" ValueError from a file-system or account-database call is not counted as wcmatch behaviour',
 ]
 
 ALPHA = '!()|[]*?\\-a./'
@@ -77,17 +77,30 @@ def nontrivial(p):
 
 
 class Ctx:
-    __slots__ = ('flags', 'mixed', 'pathlib', 'entry')
+    __slots__ = ('flags', 'mixed', 'pathlib', 'entry', 'nul')
 
-    def __init__(self, flags, entry, mixed=False, pathlib=False):
+    def __init__(self, flags, entry, mixed=False, pathlib=False, nul=False):
         self.flags = flags
         self.entry = entry
         self.mixed = mixed
         self.pathlib = pathlib
+        self.nul = nul
+
+
+_NUL_ESC = re.compile(r'\\(?:0{1,3}(?![0-7])|x00|u0000|U00000000)')
+
+
+def nul_possible(pattern, flags):
+    if isinstance(pattern, bytes):
+        pattern = pattern.decode('latin-1')
+    return '\x00' in pattern or bool(flags & G.RAWCHARS and _NUL_ESC.search(pattern))
 
 
 def allowed(exc, ctx, pattern):
     if isinstance(exc, util.HarnessBudget):
+        return True
+    if isinstance(exc, ValueError) and 'null' in str(exc) and ctx.nul:
+        # a NUL (literal or decoded by RAWCHARS) reached the OS: not wcmatch behaviour (see ASSUMPTIONS)
         return True
     if isinstance(exc, WCP.PatternLimitException):
         return bool(ctx.flags & (G.BRACE | G.SPLIT))
@@ -175,8 +188,9 @@ def probe_wide(p, gl_names, wm_names, exclude=None, second=None):
         nm = 'd/a.b'
     pats = [p] if second is None else [p, second]
     kw = {} if exclude is None else {'exclude': exclude}
-    cg = Ctx(gfl, 'gl')
-    cf = Ctx(ffl, 'fn')
+    nul = any(v is not None and nul_possible(v, gfl) for v in (p, exclude, second))
+    cg = Ctx(gfl, 'gl', nul=nul)
+    cf = Ctx(ffl, 'fn', nul=nul)
     fnn = [n for n in gl_names if n in util.FN_FLAGS]
     guarded(problems, 'fnmatch.filter', cf, p, fnn, lambda: F.filter([nm, nm[:1]], pats, flags=ffl, **kw))
     guarded(problems, 'fnmatch.compile', cf, p, fnn, lambda: F.compile(pats, flags=ffl, **kw).match(nm))
@@ -195,7 +209,7 @@ def probe_wide(p, gl_names, wm_names, exclude=None, second=None):
                 return G.glob(pats, flags=gfl, root_dir=root_t, **kw)
         guarded(problems, 'glob.glob', cg, p, gl_names, do_glob)
     if not isb:
-        cp = Ctx(gfl, 'pl', pathlib=True)
+        cp = Ctx(gfl, 'pl', pathlib=True, nul=nul)
         pfl = gfl & ~(G.FORCEWIN | G.FORCEUNIX)
         pnames = [n for n in gl_names if n not in ('FORCEWIN', 'FORCEUNIX')]
         for cls in (WP.PurePosixPath, WP.PureWindowsPath):
@@ -214,7 +228,7 @@ def probe_wide(p, gl_names, wm_names, exclude=None, second=None):
             guarded(problems, 'pathlib.Path.rglob', cp, p, pnames, do_pglob('rglob'))
     if fs_ok:
         wfl = util.flags_of(wm_names, util.WM_FLAGS)
-        cw = Ctx(wfl | G.BRACE | G.SPLIT if False else wfl | G.SPLIT, 'wm')
+        cw = Ctx(wfl | G.SPLIT, 'wm', nul=nul or any(v is not None and nul_possible(v, wfl) for v in (p, exclude)))
 
         def do_wm():
             with util.ScandirCounter(300):
